@@ -7,8 +7,10 @@ import Proofs.FitInline
 import Proofs.FitTotal
 import Proofs.FitInv
 import Proofs.FitInStep
+import Proofs.FitLoop
 import PM.FitRaiseGuard
 set_option linter.unusedVariables false
+set_option linter.unusedSimpArgs false
 namespace PM
 
 /-! ### `fill_before` answers with nodes when the search over types answers -/
@@ -828,5 +830,189 @@ theorem replaceStep_total_of_guards (S : Schema) (hdet : DetS S) (hfill : Filler
         have hR := rspineOK_spineR _ _ inv.sp
         have := spine_sum_le_fsize st.placed
         exact fitterFit_ok_of_loop S hdet hfill hrt hattrs htop sl _ st0 st h0 hl inv.frok inv.ne inv.sp (by omega)
+
+/-! ### a run that raises reaches a state in which a site condition or the well-formedness of the unplaced slice fails -/
+
+theorem FitReach.trans_step {S : Schema} {st st1 st' : FitState} (hsz : (st.unplaced.size == 0) = false)
+    (h1 : fitStep S st = .ok st1) (hr : FitReach S st1 st') : FitReach S st st' := FitReach.step hsz h1 hr
+
+/-- the loop of `fit`, from a state that is in step: either it reaches a state (with something left to place) whose
+    unplaced slice is not well-formed or fails a site condition, or it does not raise and ends in step -/
+theorem fitLoop_raise_or_reach (S : Schema) (hdet : DetS S) (hf : FillersOK S) (hw : WrapOK S) (hlab : LabelsOK S)
+    (hcl : Closable S) (hts : TextStableP S) :
+    ∀ (fuel : Nat) (st : FitState), InStep st →
+      (∃ st', FitReach S st st' ∧ (st'.unplaced.size == 0) = false ∧
+        (st'.unplaced.wf = false ∨ st'.unplaced.sitesOk S = false)) ∨
+      (fitLoop S fuel st ≠ .error .raises ∧ ∀ st', fitLoop S fuel st = .ok st' → InStep st')
+  | 0, st, inv => by
+    right
+    unfold fitLoop
+    split
+    · exact ⟨by simp [pure, Except.pure], fun st' h => by rw [← pure_ok h]; exact inv⟩
+    · exact ⟨by simp [throw, throwThe, MonadExceptOf.throw], fun st' h => by
+        simp [throw, throwThe, MonadExceptOf.throw] at h⟩
+  | fuel + 1, st, inv => by
+    by_cases hsz : (st.unplaced.size == 0) = true
+    · right
+      unfold fitLoop
+      rw [if_pos hsz]
+      exact ⟨by simp [pure, Except.pure], fun st' h => by rw [← pure_ok h]; exact inv⟩
+    · have hsz' : (st.unplaced.size == 0) = false := by simpa using hsz
+      cases hwf : st.unplaced.wf with
+      | false => exact .inl ⟨st, FitReach.refl st, hsz', .inl hwf⟩
+      | true =>
+        cases hsi : st.unplaced.sitesOk S with
+        | false => exact .inl ⟨st, FitReach.refl st, hsz', .inr hsi⟩
+        | true =>
+          obtain ⟨st1, hst1⟩ := fitStep_total S hdet hf hw hlab hcl hts st inv hwf hsi
+          have inv1 := fitStep_inStep S hdet hf hw hlab st inv hwf hsz' st1 hst1
+          rcases fitLoop_raise_or_reach S hdet hf hw hlab hcl hts fuel st1 inv1 with
+            ⟨st', hr, hne, hbad⟩ | ⟨h1, h2⟩
+          · exact .inl ⟨st', FitReach.step hsz' hst1 hr, hne, hbad⟩
+          · right
+            unfold fitLoop
+            rw [if_neg hsz, FM.bind_eq hst1]
+            exact ⟨h1, h2⟩
+
+/-- **`replace_step` raises only through one of the three places**: on a valid document (schema guards as in
+    `fit_no_raise`) an answer `raises` means that the loop of `fit` reaches a state, with something left to place, whose
+    unplaced slice is not well-formed or does not satisfy the site conditions for its open depths -/
+theorem replaceStep_raises_reach (S : Schema) (hdet : DetS S) (hfill : FillersOK S) (hw : WrapOK S)
+    (hlab : LabelsOK S) (hcl : Closable S) (hts : TextStableP S) (doc : Node) (f t : Nat) (sl : Slice)
+    (hv : S.checkNode doc = true) (hattrs : S.nodeAttrsOK doc = true) (htop : S.isTextblockO (S.tyOf doc) = false)
+    (hf : f ≤ fsize doc.kids) (ht : t ≤ fsize doc.kids) (h : replaceStep S doc f t sl = .error .raises) :
+    ∃ rf st0 st', doc.resolve f = some rf ∧ fitInit S rf sl = .ok st0 ∧ FitReach S st0 st' ∧
+      (st'.unplaced.size == 0) = false ∧ (st'.unplaced.wf = false ∨ st'.unplaced.sitesOk S = false) := by
+  obtain ⟨rf, hrf⟩ := resolve_isSome doc f hf
+  obtain ⟨rt, hrt⟩ := resolve_isSome doc t ht
+  unfold replaceStep at h
+  split at h
+  · simp [pure, Except.pure] at h
+  · simp only [hrf, hrt] at h
+    obtain ⟨b, hb⟩ := fitsTriviallyR_some S hrf hv (rt := rt) sl
+    rw [hb] at h
+    cases b with
+    | true => simp [pure, Except.pure] at h
+    | false =>
+      simp only at h
+      obtain ⟨st0, h0, hu, hfr, hlen, hsp, hsz⟩ := fitInit_ok S hrf hv sl
+      have inv0 : InStep st0 := by
+        refine ⟨hfr, ?_, by rw [hlen, Nat.add_sub_cancel]; exact hsp⟩
+        intro h; rw [h] at hlen; simp at hlen
+      rcases fitLoop_raise_or_reach S hdet hfill hw hlab hcl hts (fitFuel S sl) st0 inv0 with
+        ⟨st', hr, hne, hbad⟩ | ⟨hnr, hin⟩
+      · exact ⟨rf, st0, st', hrf, h0, hr, hne, hbad⟩
+      · exfalso
+        cases hl : fitLoop S (fitFuel S sl) st0 with
+        | error e =>
+          rcases fitLoop_err S _ st0 e hl with he | he
+          · subst he; exact hnr hl
+          · subst he
+            unfold fitterFit at h
+            rw [FM.bind_eq h0, hl] at h
+            simp [bind, Except.bind] at h
+        | ok st =>
+          have inv := hin st hl
+          have hL : rf.depth ≤ spineL st.placed :=
+            fitLoop_stable (spineL_stable rf.depth) S _ st0 st hl (fitInit_spineL S hrf sl st0 h0)
+          have hR := rspineOK_spineR _ _ inv.sp
+          have := spine_sum_le_fsize st.placed
+          obtain ⟨r, hr⟩ := fitterFit_ok_of_loop S hdet hfill hrt hattrs htop sl _ st0 st h0 hl inv.frok inv.ne inv.sp
+            (by omega)
+          rw [hr] at h
+          cases h
+
+/-- the same with the evaluator `firstBadState` (PM/FitRaiseGuard.lean) in the place of reachability -/
+theorem fitLoop_raise_or_bad (S : Schema) (hdet : DetS S) (hf : FillersOK S) (hw : WrapOK S) (hlab : LabelsOK S)
+    (hcl : Closable S) (hts : TextStableP S) :
+    ∀ (fuel : Nat) (st : FitState), InStep st →
+      (∃ w a b, firstBadState S fuel st = some (w, a, b) ∧ (w && a && b) = false) ∨
+      (fitLoop S fuel st ≠ .error .raises ∧ ∀ st', fitLoop S fuel st = .ok st' → InStep st')
+  | 0, st, inv => by
+    right
+    unfold fitLoop
+    split
+    · exact ⟨by simp [pure, Except.pure], fun st' h => by rw [← pure_ok h]; exact inv⟩
+    · exact ⟨by simp [throw, throwThe, MonadExceptOf.throw], fun st' h => by
+        simp [throw, throwThe, MonadExceptOf.throw] at h⟩
+  | fuel + 1, st, inv => by
+    by_cases hsz : (st.unplaced.size == 0) = true
+    · right
+      unfold fitLoop
+      rw [if_pos hsz]
+      exact ⟨by simp [pure, Except.pure], fun st' h => by rw [← pure_ok h]; exact inv⟩
+    · have hsz' : (st.unplaced.size == 0) = false := by simpa using hsz
+      cases hall : (st.unplaced.wf && S.startSiteOk st.unplaced.openStart st.unplaced.content &&
+          S.endSiteOk st.unplaced.content st.unplaced.openEnd) with
+      | false =>
+        left
+        refine ⟨_, _, _, ?_, hall⟩
+        unfold firstBadState
+        rw [if_neg hsz]
+        simp only [hall, Bool.false_eq_true, if_false]
+      | true =>
+        simp only [Bool.and_eq_true] at hall
+        obtain ⟨st1, hst1⟩ := fitStep_total S hdet hf hw hlab hcl hts st inv hall.1.1
+          (by simp [Slice.sitesOk, hall.1.2, hall.2])
+        have inv1 := fitStep_inStep S hdet hf hw hlab st inv hall.1.1 hsz' st1 hst1
+        rcases fitLoop_raise_or_bad S hdet hf hw hlab hcl hts fuel st1 inv1 with ⟨w, a, b, h1, h2⟩ | ⟨h1, h2⟩
+        · left
+          refine ⟨w, a, b, ?_, h2⟩
+          unfold firstBadState
+          rw [if_neg hsz]
+          simp only [hall.1.1, hall.1.2, hall.2, Bool.and_self, if_true, hst1]
+          exact h1
+        · right
+          unfold fitLoop
+          rw [if_neg hsz, FM.bind_eq hst1]
+          exact ⟨h1, h2⟩
+
+theorem replaceStep_raises_bad (S : Schema) (hdet : DetS S) (hfill : FillersOK S) (hw : WrapOK S)
+    (hlab : LabelsOK S) (hcl : Closable S) (hts : TextStableP S) (doc : Node) (f t : Nat) (sl : Slice)
+    (hv : S.checkNode doc = true) (hattrs : S.nodeAttrsOK doc = true) (htop : S.isTextblockO (S.tyOf doc) = false)
+    (hf : f ≤ fsize doc.kids) (ht : t ≤ fsize doc.kids) (h : replaceStep S doc f t sl = .error .raises) :
+    ∃ w a b, requestBadState S doc f t sl = some (w, a, b) ∧ (w && a && b) = false := by
+  obtain ⟨rf, hrf⟩ := resolve_isSome doc f hf
+  obtain ⟨rt, hrt⟩ := resolve_isSome doc t ht
+  unfold requestBadState
+  unfold replaceStep at h
+  split at h
+  · simp [pure, Except.pure] at h
+  · rename_i hcond
+    rw [if_neg hcond]
+    simp only [hrf, hrt] at h ⊢
+    obtain ⟨b, hb⟩ := fitsTriviallyR_some S hrf hv (rt := rt) sl
+    rw [hb] at h ⊢
+    cases b with
+    | true => simp [pure, Except.pure] at h
+    | false =>
+      simp only at h ⊢
+      obtain ⟨st0, h0, hu, hfr, hlen, hsp, hsz⟩ := fitInit_ok S hrf hv sl
+      rw [h0]
+      simp only
+      have inv0 : InStep st0 := by
+        refine ⟨hfr, ?_, by rw [hlen, Nat.add_sub_cancel]; exact hsp⟩
+        intro h; rw [h] at hlen; simp at hlen
+      rcases fitLoop_raise_or_bad S hdet hfill hw hlab hcl hts (fitFuel S sl) st0 inv0 with hbad | ⟨hnr, hin⟩
+      · exact hbad
+      · exfalso
+        cases hl : fitLoop S (fitFuel S sl) st0 with
+        | error e =>
+          rcases fitLoop_err S _ st0 e hl with he | he
+          · subst he; exact hnr hl
+          · subst he
+            unfold fitterFit at h
+            rw [FM.bind_eq h0, hl] at h
+            simp [bind, Except.bind] at h
+        | ok st =>
+          have inv := hin st hl
+          have hL : rf.depth ≤ spineL st.placed :=
+            fitLoop_stable (spineL_stable rf.depth) S _ st0 st hl (fitInit_spineL S hrf sl st0 h0)
+          have hR := rspineOK_spineR _ _ inv.sp
+          have := spine_sum_le_fsize st.placed
+          obtain ⟨r, hr⟩ := fitterFit_ok_of_loop S hdet hfill hrt hattrs htop sl _ st0 st h0 hl inv.frok inv.ne inv.sp
+            (by omega)
+          rw [hr] at h
+          cases h
 
 end PM
